@@ -94,7 +94,7 @@ var jsonBodies = []string{`{"a":1}`, `{"a":2,"b":"x"}`, `{"n":{"m":1,"k":"v"}}`,
 var rawBodies = []string{"raw-bytes", "hello world", "\x00\x01binary\xff", "17", "x"}
 var sysXattrs = []string{"_sync", "_x2"}
 var userXattrs = []string{"u1", "u2"}
-var allXattrNames = []string{"_sync", "_x2", "u1", "u2"}
+var allXattrNames = []string{"_sync", "_x2", "u1", "u2", "_syncx"} // (one name is a prefix of another)
 
 type gen struct {
 	r        *Rng
@@ -247,6 +247,9 @@ func (g *gen) casMode(wCur, wZero, wStale, wBogus int) string {
 }
 
 func (g *gen) expVal() uint32 {
+	if g.r.Chance(2) {
+		return 2592000 // exactly 30 days: the largest value that is still an offset
+	}
 	if g.p.ShortExp {
 		if g.r.Chance(40) {
 			return uint32(1 + g.r.Intn(4))
@@ -287,6 +290,10 @@ func (g *gen) macros(op *Op, set map[string]string) []Macro {
 				ms = append(ms, Macro{Path: k + ".crc", Type: 1})
 			default:
 				ms = append(ms, Macro{Path: k + ".cas", Type: 0}, Macro{Path: k + ".crc", Type: 1})
+			}
+			if g.r.Chance(15) {
+				// a nested path: under an object some values have ("n"), or under one none has ("meta")
+				ms = append(ms, Macro{Path: k + []string{".n.cas", ".meta.cas"}[g.r.Intn(2)], Type: 0})
 			}
 		}
 	}
@@ -384,6 +391,9 @@ func (g *gen) op(kind string) Op {
 			if g.r.Chance(20) {
 				e := g.expVal()
 				a.Exp = &e
+				if g.r.Chance(40) {
+					a.Body = nil // only the expiry changes: the body the callback was shown stays
+				}
 			}
 			op.Cb = append(op.Cb, a)
 		}
@@ -395,6 +405,8 @@ func (g *gen) op(kind string) Op {
 		op.ExpKind, op.ExpVal = 1+g.r.Intn(2), g.expVal()
 		if g.r.Chance(15) {
 			op.ExpKind, op.ExpVal = 0, 0
+		} else if g.r.Chance(15) {
+			op.ExpKind, op.ExpVal = 3, 0 // the deadline the document already has, once more
 		}
 	case "SetXattrs":
 		op.Xattrs = g.xattrSet(1, 2)
@@ -586,9 +598,9 @@ func (g *gen) op(kind string) Op {
 			op.Handle = g.r.Intn(2) // design documents are replaced and queried through either of two handles
 		}
 	case "Query":
-		kinds := []string{"ids", "idbody", "idge", "num", "str", "xattr", "count", "xnull"}
+		kinds := []string{"ids", "idbody", "idge", "num", "str", "xattr", "count", "xnull", "idnum", "veq"}
 		if !g.p.JSONOnly {
-			kinds = []string{"ids", "idge", "xattr", "count", "xnull"} // raw bodies around: only queries that do not parse the body
+			kinds = []string{"ids", "idge", "xattr", "count", "xnull", "idnum"} // raw bodies around: only queries that do not parse the body
 		}
 		op.Key = ""
 		op.Path = kinds[g.r.Intn(len(kinds))]
@@ -599,6 +611,10 @@ func (g *gen) op(kind string) Op {
 			op.Body = strp(fmt.Sprintf(`{"min":%d}`, g.r.Intn(12)))
 		case "str":
 			op.Body = strp(fmt.Sprintf(`{"s":"t%d"}`, g.r.Intn(3)))
+		case "idnum":
+			op.Body = strp(fmt.Sprintf(`{"n":%d}`, 1+g.r.Intn(4)))
+		case "veq":
+			op.Body = strp(fmt.Sprintf(`{"n":%d}`, g.r.Intn(12)))
 		}
 		if g.r.Chance(25) {
 			op.WOpt = 1 // hold the iterator open across a write (on-disk buckets)
